@@ -94,8 +94,9 @@ class _FakeSampler:
         self._s, self._log, self._idx = samples, log, idx
 
     def generate_samples(self):
+        # deterministic injection (quantifier of C10): the sampler replays its stored stencil, the same array on every call
         self._log.append(self._idx)
-        return self._s.copy()
+        return self._s
 
 
 def cases_perturb(tier):
@@ -127,7 +128,7 @@ def scn_perturb(T, case):
     nsamp = 1 if case["samplers"] is None else 2
     log = []
     samples = [T.real("s%d" % k, (R, P, N)) for k in range(nsamp)]
-    samplers = [_FakeSampler(samples[k], log, k) for k in range(nsamp)]
+    samplers = [_FakeSampler(samples[k].copy(), log, k) for k in range(nsamp)]
     cfg = types.SimpleNamespace(
         gradient=types.SimpleNamespace(
             samplers=None if case["samplers"] is None else np.array(case["samplers"], dtype=np.intc),
@@ -140,6 +141,11 @@ def scn_perturb(T, case):
     out = f(cfg, x, samplers)
     T.prove("C10.perturb.shape", out.shape == (R, P, N))
     T.prove("C10.perturb.variables_not_modified", T.same(x, x0))
+    # the injected samples belong to the sampler: a second evaluation with the same stencil gives the same perturbations
+    T.prove("C10.perturb.injected_samples_not_modified", T.all([T.same(samplers[k]._s, samples[k]) for k in range(nsamp)]))
+    del log[:]
+    again = f(cfg, x, samplers)
+    T.prove("C10.perturb.repeated_evaluation_with_the_same_samples_gives_the_same_perturbations", T.same(again, out))
     if case["samplers"] is not None:
         # order of first appearance in gradient.samplers, each sampler exactly once
         first = list(dict.fromkeys(int(s) for s in case["samplers"] if s >= 0))
